@@ -2,12 +2,25 @@
 """Regenerates MANIFEST.json from the table below (kept in one place so it stays valid)."""
 import json
 
-REPO_FIXES = ["7e35490"]
+REPO_FIXES = ["7e35490", "ecea711", "fc01ecc", "bc9cd84"]
 TECH = "bounded symbolic execution of the real Python code on z3 real proxies (own engine vf.symx) + SMT (z3; UF abstraction with exact NRA refinement); counterexamples replayed concretely"
 CLAIMED = {
     "C01": ("unit level: every _solv_outp_volt/_solv_inp_curr of the 11 kinds (const / 1-D / 2-D tables, phase modes, off flags, PMux k<=3) "
             "proved equal to an independent reference model for ALL real parameter values; system level: see DESIGN 4/C01.",
             "Floats modelled as reals; numpy/scipy contract shims (DESIGN 1.4); io>=0; bounded table sizes and tree shapes.", "4/C01"),
+    "C02": ("unit level: every _solv_pwr_loss with (vo, ii) produced by the component's own laws: P-L = |Vout|*Iout, 0<=L<=P, efficiency, "
+            "temperature for ALL real values (exact NRA); system level: the same per row on the real solve() table plus total rows and the "
+            "system power balance by a solver-checked telescoping argument (every hypothesis is its own obligation).",
+            "Floats as reals; contract shims; polarity-keeping states only (overload is C03); shape catalogue bound.", "4/C02"),
+    "C04": ("system level: source voltages symbolic including 0 V, phase-inactive elements by configuration; for every row "
+            "'supply dead by configuration => all numeric cells 0' and the sleep-current / sleep-power law of the inactive element, at depth <= 4.",
+            "Floats as reals; contract shims; shape catalogue and 2 phases bound.", "4/C04"),
+    "C05": ("unit level: real PMux priority selection / per-input rs for k<=3(4) inputs, all off vectors (exact); system level: which input is "
+            "selected is a solver decision; Parent/Rail-in, Vin, Domain, current attribution and all-dead case per mux shape.",
+            "Floats as reals; contract shims; 1..4 inputs; shape catalogue bound.", "4/C05"),
+    "C07": ("real solve() aggregation (Domain attribution, Subsystem / total / average rows, energy) on proxies compared cell by cell with a spec "
+            "interpreter over the harness's own tree description, for multi-source and mux shapes in several insertion orders, with phases.",
+            "Floats as reals; contract shims; efficiency cells only for non-overloaded states; shape catalogue bound.", "4/C07"),
     "C20": ("trace_res/plane_res executed on proxies; the closed form and every stated algebraic law (proportionality, inverse, affine, symmetry, "
             "trace==plane) is an exact-NRA query proved unsat for all positive dimensions.",
             "Floats modelled as reals (rounding/overflow outside the claim).", "4/C20"),
